@@ -27,6 +27,24 @@ JL_TOKENS = [b'1', b'20', b'-7', b'"x"', b'"\xc3\xa9"', b'{}', b'[]', b'  12', b
              b'', b' ', b'\t ',                                                                   # blank
              b'{x', b'1 2', b'"x', b'01', b'-', b'\xc3', b'[1', b'x', b'\x0b1', b'"\t"']          # corrupt
 JSONL_BLOCK = 4096
+# characters at which str.splitlines / str.lstrip act but which are NOT line breaks of a file
+# (\v \f FS GS RS NEL LS PS): a reader must leave them inside the line
+TB_CPS = [0x0b, 0x0c, 0x1c, 0x1d, 0x1e, 0x85, 0x2028, 0x2029]
+TB_UNITS = [chr(_c).encode('utf-8') for _c in TB_CPS]
+# bytes the driver's recogniser and json.loads also agree on (the UTF-8 bytes of the above)
+JL_ALLOWED |= set(b'\x1c\x1d\x1e\xe2\x80\xa8\xa9\xc2\x85')
+ASCII_WS = ' \t\n\r\x0b\x0c'
+JSON_WS = b' \t\n\r'
+# lines json.loads rejects with something else than JSONDecodeError (or accepts surprisingly)
+ODD_LINES = [b'[' * 100000, b'[' * 30000 + b']' * 30000, b'{"a":' * 40000, b'1' * 5000, b'-' + b'9' * 4400,
+             b'[' + b'1' * 4301 + b']', b'\xff', b'\x80', b'"\xc3"', b'\xc31', b'"\xf0\x9f\x98"', b'\xff\xfe1',
+             b'\xfe\xff\x001', b'\x00', b'1\x00', b'\x00\x00\x001', b'"\xed\xa0\x80"', b'\xef\xbb\xbf1',
+             b'[1,]', b"'x'", b'1.', b'tru', b'"\\u12"', b'"\\ud800"', b'-Infinity', b'1e999', b'{"a":1,}',
+             b'\xe2\x80', b'"\xe2\x80\xa8', b'\xc0\x80']
+REAL_MODES = ('bf', 'tf', 'bu', 'br', 'tn')
+
+
+_DIGIT_RUN = __import__('re').compile(rb'[0-9]{4000}')
 
 
 def hx(b):
@@ -39,6 +57,33 @@ def unhx(s):
 
 def cps(s):
     return [ord(ch) for ch in s]
+
+
+def content(case):
+    """the file content of an rl / jl case: hex in 'c', or run-length segments [hex, count] in 'rle'"""
+    if 'rle' in case:
+        return b''.join(unhx(h) * n for h, n in case['rle'])
+    return unhx(case['c'])
+
+
+def exotic_lead(c, text):
+    """some line starts (after JSON whitespace) with a character that the reader's lstrip() removes but
+    that is not JSON whitespace: \v \f, and for str also FS GS RS US NEL NBSP LS PS ...; whether such a
+    line is 'blank' / 'decodable' is not something the statement settles"""
+    for p in C19.expected_lines(c):
+        q = p.lstrip(JSON_WS)
+        if not q:
+            continue
+        if q[:1] in (b'\x0b', b'\x0c'):
+            return True
+        if text and q[0] >= 0x1c:
+            try:
+                ch = q.decode('utf-8')[0]
+            except UnicodeDecodeError:
+                continue
+            if ch.isspace():
+                return True
+    return False
 
 
 def show_cps(l):
@@ -69,13 +114,32 @@ class C19(Property):
             'forward and reverse, ignore_errors on/off, binary/text mode; small files exhaustively over a token '
             'list, byte soup, and files of 1-3 blocks of 4096 bytes with line breaks, CRLF pairs, blank lines and '
             'multi-byte characters placed on the block edges; non-trivial = at least one object and (a skipped '
-            'line or more than one block). distinct = distinct canonical cases.')
+            'line or more than one block). distinct = distinct canonical cases. '
+            'GENERATED FIRST (round 2), small and adversarial: sl all texts of <= 2 characters over 25 symbols (the breaks and '
+            'their neighbours FS GS RS US U+2027 U+202A U+0084 U+0086 ...); rl <= 3 units x every blocksize; rl/jl with a '
+            'character at which str.splitlines / str.lstrip act but no file reader may (VT FF FS GS RS NEL LS PS) alone, in the '
+            'first / a middle / the last line, in text and binary mode, and inside JSON strings or between two numbers of a '
+            'record; records on which json.loads raises something else than JSONDecodeError (UnicodeDecodeError incl. via '
+            'UTF-16/32 detection, RecursionError on 100000-fold nesting, ValueError on > 4300 digits) or accepts surprisingly '
+            '(BOM, lone surrogates, Infinity); RECORDS LONGER THAN A BLOCK: record length 4096 + (-2..3) in nine shapes (ASCII '
+            'string, multi-byte string counted in bytes and in characters, array, leading blanks, blank, corrupt, a number '
+            'sitting on the boundary, two numbers that are only valid when the line is cut there) x LF/CRLF x binary/text x '
+            'first/middle/last, then 2^k + (-1..2) for k = 5..17, multiples of 4096, two long records in a row, 64 blocks '
+            '(run-length coded cases: {rle: [[hex, count], ...]}); one line 17..2049 bytes long read with block sizes 1, 2, 3, 5; '
+            'contents of 5-70 KB with lines of 4095..20000 bytes read with block sizes 1000, 4096, 8191, 8192, 65536; the small '
+            'contents again on real files of five kinds (rb, rb unbuffered, r+b, r utf-8, r utf-8 newline=\'\') and with the file '
+            'position moved away from 0 before the reader gets the file (case key pre).')
     ASSUMPTIONS = ['text is a sequence of Unicode scalar values (no lone surrogates); text-mode files hold valid UTF-8',
                    'a file object is its content plus a position: seek/read of a regular file or BytesIO return exactly the requested bytes',
                    'json.loads is modelled as a parameter; the driver instantiates it with a recogniser for integers, '
                    'escape-free strings, {} and [] and the harness only sends JSONL contents over a byte alphabet on which both agree',
                    'contents with a \\r not followed by \\n are outside the statement (lines are \\n- or \\r\\n-separated): '
-                   'the oracle demands only blocksize independence there; JSONL contents containing \\v / \\f are judged by the correspondence only']
+                   'the oracle demands only blocksize independence there; a JSONL content with a line that starts (after JSON '
+                   'whitespace) with a character lstrip() removes but JSON does not skip (\\v \\f, in text mode also FS GS RS US NEL '
+                   'NBSP LS PS ...) is judged by the correspondence only',
+                   'json.loads ignores a trailing line break: false for binary lines with NUL bytes (UTF-16/32 detection), where '
+                   'forward mode (line with break) and reverse mode (line without) decode differently - known finding '
+                   'C19-jsonl-break-dependent-decoding, proposed repair in notes/proposed_fixes/']
     CORRESPONDENCE_NAME = ('C19.Driver (iterSplitlines / reverseIterLines / jsonlForward, jsonlReverse) vs '
                            'boltons.strutils.iter_splitlines, boltons.jsonutils.reverse_iter_lines, JSONLIterator')
 
@@ -124,6 +188,17 @@ class C19(Property):
                     else:
                         raise ValueError('unsupported set member %r in _line_ending_re' % (o2,))
                 return out
+            if op in (sc.MAX_REPEAT, sc.MIN_REPEAT) and isinstance(av[1], int) and av[1] <= 2:
+                # x? / x{m,n} with n <= 2: the repetition counts in the order the matcher tries them
+                lo, hi, sub = av
+                subs = expand_seq(sub)
+                out = []
+                for n in (range(hi, lo - 1, -1) if op is sc.MAX_REPEAT else range(lo, hi + 1)):
+                    reps = [[]]
+                    for _ in range(n):
+                        reps = [a + o for a in reps for o in subs]
+                    out.extend(reps)
+                return out
             raise ValueError('unsupported regex node %r in _line_ending_re' % (op,))
 
         alts = expand_seq(tree)
@@ -152,6 +227,8 @@ class C19(Property):
     def cases(self, budget_s):
         rng = self.rng
         th = self.thorough
+        # ---- small, diverse, adversarial families first (a slow machine never loses them)
+        yield from self.first_cases(rng)
         # ---- sl: exhaustive small scope
         for n in range(0, (5 if th else 4) + 1):
             for t in itertools.product(SL_ALPHABET, repeat=n):
@@ -193,6 +270,234 @@ class C19(Property):
             yield self.random_jl(rng)
         for j in range(1500 if th else 300):
             yield self.big_jl(rng, real=(j % 10 == 0))
+        # ---- second helping of the size-dependent families, random this time
+        yield from self.long_jl(rng, random_only=(3000 if th else 250))
+        for _ in range(600 if th else 60):
+            yield self.big_rl(rng)
+
+    # ---- the families generated first -------------------------------------------------
+    def first_cases(self, rng):
+        # sl: every text of up to 2 characters over all symbols, incl. the non-breaks next to the breaks
+        alpha = SL_ALPHABET + SL_EXTRA
+        for n in range(0, 3):
+            for t in itertools.product(alpha, repeat=n):
+                yield {'k': 'sl', 't': list(t)}
+        # rl: up to 3 units x every blocksize x binary/text
+        for n in range(0, 4):
+            for units in itertools.product(RL_UNITS, repeat=n):
+                c = b''.join(units)
+                for bs in range(1, len(c) + 2):
+                    for mode in ('b', 't'):
+                        yield {'k': 'rl', 'c': hx(c), 'bs': bs, 'mode': mode}
+        yield from self.tbreak_rl()
+        # jl: one-line files, then lines holding str-only breaks, odd json.loads errors, long lines
+        for c in self.small_jsonl(1):
+            for mode in ('b', 't'):
+                if mode == 't' and not self.decodable(c):
+                    continue
+                for ign in (1, 0):
+                    yield {'k': 'jl', 'c': hx(c), 'mode': mode, 'ign': ign}
+        yield from self.tbreak_jl()
+        yield from self.odd_error_jl()
+        yield from self.long_jl(rng)
+        yield from self.ratio_rl()
+        yield from self.file_kinds()
+        for _ in range(200 if self.thorough else 30):
+            yield self.big_rl(rng)
+
+    def tbreak_rl(self):
+        """lines containing a character at which str.splitlines (but no file reader) breaks: VT FF FS GS RS
+        NEL LS PS, as UTF-8, alone / inside the first, a middle, the last line / next to a real break"""
+        for X in TB_UNITS:
+            tpls = [X, b'a' + X, X + b'a', b'a' + X + b'b', b'a' + X + b'b\n', b'a' + X + b'b\nc', b'\na' + X + b'b',
+                    b'\r\na' + X + b'b', b'a' + X + b'b\r\nc\r\n', b'c\na' + X + b'b', b'c\r\na' + X + b'b\r\n',
+                    X + b'\n', b'\n' + X, b'a' + X + b'\n' + X + b'b', b'\n\na' + X + b'b\n', b'a' + X + X + b'b',
+                    b'c\na' + X + b'b\nd\n', X + b'\r\n' + X]
+            for i, c in enumerate(tpls):
+                n = len(c)
+                for bs in sorted({1, 2, 3, max(1, n - 1), n, n + 1, 4096}):
+                    for mode in ('t', 'b'):
+                        yield {'k': 'rl', 'c': hx(c), 'bs': bs, 'mode': mode}
+                yield {'k': 'rl', 'c': hx(c), 'bs': 2, 'mode': REAL_MODES[i % len(REAL_MODES)]}
+
+    def tbreak_jl(self):
+        """JSON Lines records with such a character inside a string (a valid record for NEL LS PS) or between
+        two numbers (a corrupt record whose halves would be valid records); never leading on its line"""
+        for X in TB_UNITS:
+            for tok in (b'"a' + X + b'b"', b'1' + X + b'2', b'[1' + X + b']', b'"' + X + b'"'):
+                for lines in ([tok], [b'1', tok], [tok, b'1'], [b'1', tok, b'20'], [b'', tok, b'1'], [tok, tok]):
+                    for sep, end in ((b'\n', b'\n'), (b'\n', b''), (b'\r\n', b'\r\n')):
+                        c = sep.join(lines) + end
+                        for mode in ('t', 'b'):
+                            yield {'k': 'jl', 'c': hx(c), 'mode': mode, 'ign': 1}
+                        yield {'k': 'jl', 'c': hx(c), 'mode': 't', 'ign': 0}
+
+    def odd_error_jl(self):
+        """corrupt records on which json.loads raises UnicodeDecodeError (also via UTF-16/32 detection),
+        RecursionError, ValueError (integer digit limit) ... or which it accepts surprisingly; binary and,
+        where the bytes are UTF-8, text mode"""
+        for i, odd in enumerate(ODD_LINES):
+            for lines in ([odd], [b'1', odd, b'20'], [odd, b'"x"'], [b'7', b'', odd]):
+                sep = b'\r\n' if (i % 3 == 2) else b'\n'
+                c = sep.join(lines) + (sep if i % 2 else b'')
+                for mode in ('b', 't'):
+                    if mode == 't' and not self.decodable(c):
+                        continue
+                    for ign in (1, 0):
+                        yield {'k': 'jl', 'c': hx(c), 'mode': mode, 'ign': ign}
+
+    @staticmethod
+    def long_shape(kind, w):
+        """run-length segments [hex, count] of a record of w bytes (w characters for 'estrc')"""
+        w = max(w, 4)
+        if kind == 'str':
+            return [['22', 1], ['78', w - 2], ['22', 1]]
+        if kind == 'estr':          # multi-byte characters: fewer characters than bytes
+            return [['22', 1], ['c3a9', (w - 2) // 2], ['78', (w - 2) % 2], ['22', 1]]
+        if kind == 'estrc':
+            return [['22', 1], ['c3a9', w - 2], ['22', 1]]
+        if kind == 'arr':
+            return [['5b', 1], ['20', w - 3], ['375d', 1]]
+        if kind == 'lead':          # needs the lstrip
+            return [['20', w - 2], ['3237', 1]]
+        if kind == 'blank':
+            return [['20', w]]
+        if kind == 'bad':
+            return [['7b', 1], ['78', w - 1]]
+        if kind == 'numat':         # the digits of 12 sit on byte w-1 and w
+            return [['20', w - 2], ['3132', 1], ['20', 3]]
+        if kind == 'twonums':       # corrupt as a whole; cut after w bytes both pieces are valid records
+            return [['37', 1], ['20', w - 1], ['3230', 1]]
+        raise ValueError(kind)
+
+    LONG_KINDS = ['str', 'estr', 'estrc', 'arr', 'lead', 'blank', 'bad', 'numat', 'twonums']
+
+    def long_case(self, rng, kind, w, pre, post, sep, end, mode, ign):
+        segs = []
+        for l in pre:
+            segs.append([hx(l + sep), 1])
+        segs += self.long_shape(kind, w)
+        segs.append([hx(sep), 1])
+        for l in post:
+            segs.append([hx(l + sep), 1])
+        if not end:     # no final line break
+            last = unhx(segs[-1][0])
+            segs[-1] = [hx(last[:-len(sep)]), 1]
+        segs = [sg for sg in segs if sg[1] > 0 and sg[0] != '-']
+        return {'k': 'jl', 'rle': segs, 'mode': mode, 'ign': ign}
+
+    def long_jl(self, rng, random_only=0):
+        """JSON Lines files with ONE RECORD LONGER THAN A BLOCK: record length w around every power of two
+        2^5..2^17 and around multiples of 4096 (the block size of JSONLIterator; 8192 is the io buffer size),
+        at the start / in the middle / at the end of the file, LF or CRLF, with or without final break"""
+        ctx = [([], []), ([b'1'], []), ([], [b'20']), ([b'1'], [b'20']), ([b'', b'"x"'], [b'', b'7']),
+               ([b'{x', b'-7'], [b'{x'])]
+        modes = ['b', 't', 'b', 't', 'b', 't', 'bf', 'tf', 'tn', 'bu']
+
+        def some(kind, w):
+            pre, post = rng.choice(ctx)
+            sep = rng.choice([b'\n', b'\n', b'\r\n'])
+            return self.long_case(rng, kind, w, pre, post, sep, rng.random() < 0.7, rng.choice(modes),
+                                  rng.choice([1, 1, 0]))
+        if random_only:
+            for _ in range(random_only):
+                B = rng.choice([2 ** rng.randint(5, 14), JSONL_BLOCK * rng.randint(1, 4), JSONL_BLOCK, 8192])
+                yield some(rng.choice(self.LONG_KINDS), max(4, B + rng.choice([-2, -1, 0, 1, 2, 3, 7, B // 3])))
+            return
+        # the block size itself: every shape x every offset x LF/CRLF x binary/text
+        for kind in self.LONG_KINDS:
+            for d in (-2, -1, 0, 1, 2, 3):
+                for sep in (b'\n', b'\r\n'):
+                    for mode in ('b', 't'):
+                        pre, post = ctx[(d + len(kind)) % len(ctx)]
+                        yield self.long_case(rng, kind, JSONL_BLOCK + d, pre, post, sep, d % 2 == 0, mode, 1)
+                yield self.long_case(rng, kind, JSONL_BLOCK + d, [b'1'], [b'20'], b'\n', True, 'b', 0)
+        # other chunk sizes a reader might use
+        for k in range(5, 18):
+            B = 2 ** k
+            if B == JSONL_BLOCK:
+                continue
+            offs = (-1, 0, 1, 2) if k <= 13 else ((1,) if k >= 16 else (0, 1))
+            for d in offs:
+                yield some('str', B + d)
+                if k <= 15:
+                    yield some(rng.choice(self.LONG_KINDS[1:]), B + d)
+                if k <= 13:
+                    yield some(rng.choice(['numat', 'twonums', 'estrc', 'lead']), B + d)
+        for m in (2, 3, 5):
+            for d in (-1, 0, 1, 2):
+                yield some(rng.choice(self.LONG_KINDS), m * JSONL_BLOCK + d)
+        # two long records next to each other
+        for d in (-1, 1, 2):
+            a = self.long_shape('str', JSONL_BLOCK + d) + [['0a', 1]]
+            b = self.long_shape('arr', JSONL_BLOCK - d) + [['0a', 1]]
+            for mode in ('b', 't'):
+                yield {'k': 'jl', 'rle': a + b, 'mode': mode, 'ign': 1}
+                yield {'k': 'jl', 'rle': [['310a', 1]] + b + a + [['32', 1]], 'mode': mode, 'ign': 1}
+
+    def big_rl(self, rng):
+        """reverse_iter_lines on contents of 5-70 KB (some lines longer than the block) with realistic block
+        sizes, half of them on real files of the various kinds (buffered, unbuffered, r+b, text, newline='')"""
+        total = rng.choice([5000, 9000, 17000, 33000, 70000])
+        sep = b'\r\n' if rng.random() < 0.4 else b'\n'
+        parts = []
+        n = 0
+        while n < total:
+            w = rng.choice([0, 1, 5, 80, 80, 500, 4095, 4096, 4097, 8192, 8193, 20000])
+            body = rng.choice([b'a', b'ab', E_ACUTE, b'\xe2\x80\xa8x', b' '])
+            l = (body * (w // len(body) + 1))[:w]
+            if not self.decodable(l):
+                l = l[:-1]
+                if not self.decodable(l):
+                    l = l[:-1]
+            parts.append(l + sep)
+            n += len(l) + len(sep)
+        c = b''.join(parts)
+        if rng.random() < 0.4:
+            c = c[:-len(sep)]
+        if rng.random() < 0.2:
+            c = sep + c
+        bs = rng.choice([1000, 4096, 4096, 8192, 8191, 65536, len(c) // 2 + 1, len(c), len(c) + 1])
+        mode = rng.choice(['b', 't'] if rng.random() < 0.5 else list(REAL_MODES))
+        return {'k': 'rl', 'c': hx(c), 'bs': bs, 'mode': mode}
+
+    def ratio_rl(self):
+        """one line MANY blocks long: line length 2^k+1 (k = 4..11) with block sizes 1, 2, 3, 5 (up to 2049
+        rounds of the block loop for a single line), first / middle / last line, LF and CRLF; and JSON Lines
+        records of 64 (thorough: 128) blocks of 4096 bytes"""
+        for k in range(4, 12):
+            L = 2 ** k + 1
+            body = (b'ab' * L)[:L]
+            ebody = (E_ACUTE * L)[:L - 1] + b'a'
+            for bs in ((1, 2, 3, 5) if k <= 9 else (1, 3)):
+                for j, (pre, post) in enumerate(((b'', b''), (b'c\n', b''), (b'', b'\nd'), (b'c\r\n', b'\r\nd\r\n'),
+                                                 (b'\n', b'\n'))):
+                    if k > 9 and j not in (1, 4):
+                        continue
+                    yield {'k': 'rl', 'c': hx(pre + body + post), 'bs': bs, 'mode': 'b' if (j + bs) % 2 else 't'}
+                if k <= 9:
+                    yield {'k': 'rl', 'c': hx(b'c\n' + ebody + b'\n'), 'bs': bs, 'mode': 't'}
+        for blocks in ((64, 128) if self.thorough else (64,)):
+            w = blocks * JSONL_BLOCK + 1
+            yield {'k': 'jl', 'rle': [['310a', 1]] + self.long_shape('str', w) + [['0a', 1], ['32300a', 1]],
+                   'mode': 'b', 'ign': 1}
+            yield {'k': 'jl', 'rle': self.long_shape('arr', w) + [['0d0a', 1]], 'mode': 't', 'ign': 0}
+
+    def file_kinds(self):
+        """the small contents again on real files: buffered / unbuffered / r+b binary, text, text newline=''"""
+        conts = [b'', b'a', b'a\n', b'\na', b'a\nb', b'a\r\nb\r\n', b'\r\n\r\na', b'\xc3\xa9\n\xc3\xa9', b'a\n\nb\n\n',
+                 b'1\n20\n', b'\n1\n\n"x"', b'{x\r\n7\r\n', b'"\xc3\xa9"\n[]\n{}', b' \n\t\n-7\n']
+        for c in conts:
+            for mode in REAL_MODES:
+                for bs in (1, 2, len(c) + 1):
+                    yield {'k': 'rl', 'c': hx(c), 'bs': bs, 'mode': mode}
+                for ign in (1, 0):
+                    yield {'k': 'jl', 'c': hx(c), 'mode': mode, 'ign': ign}
+            # the file position is somewhere else than 0 when the reader gets the file ('pre' items read before)
+            for mode in ('b', 't') + REAL_MODES:
+                for pre in (1, 2, len(c), len(c) + 3):
+                    yield {'k': 'rl', 'c': hx(c), 'bs': 2, 'mode': mode, 'pre': pre}
+                    yield {'k': 'jl', 'c': hx(c), 'mode': mode, 'ign': 1, 'pre': pre}
 
     def deep_cases(self, budget_s):
         rng = self.rng
@@ -213,10 +518,14 @@ class C19(Property):
                 yield self.random_sl(rng)
             elif r < 0.65:
                 yield self.random_rl(rng)
-            elif r < 0.95:
+            elif r < 0.9:
                 yield self.random_jl(rng)
-            else:
+            elif r < 0.94:
                 yield self.big_jl(rng, real=False)
+            elif r < 0.98:
+                yield from self.long_jl(rng, random_only=1)
+            else:
+                yield self.big_rl(rng)
 
     @staticmethod
     def decodable(c):
@@ -261,7 +570,10 @@ class C19(Property):
                 parts.append(rng.choice([b'a', b'b', b' ', b'0']))
         c = b''.join(parts)
         bs = rng.choice([1, 2, 3, 4, 5, 7, 8, len(c), len(c) + 1, max(1, len(c) - 1), 4096, rng.randint(1, len(c) + 3)])
-        return {'k': 'rl', 'c': hx(c), 'bs': max(1, bs), 'mode': mode}
+        case = {'k': 'rl', 'c': hx(c), 'bs': max(1, bs), 'mode': mode}
+        if rng.random() < 0.05:
+            case['pre'] = rng.randint(1, len(c) + 2)
+        return case
 
     def small_jsonl(self, nlines):
         """all files of up to nlines lines over the token list, LF / CRLF separators, with/without final break"""
@@ -384,12 +696,19 @@ class C19(Property):
         if k == 'sl':
             return 'sl ' + show_cps(case['t'])
         if k == 'rl':
-            return 'rl %s %d' % (case['c'], case['bs'])
+            return 'rl %s %d' % (hx(content(case)), case['bs'])
         if k == 'jl':
-            c = unhx(case['c'])
+            c = content(case)
             if not set(c) <= JL_ALLOWED:
                 return None
-            return 'jl %s %d %s' % (case['mode'][0], case['ign'], case['c'])
+            # json.loads has limits the recogniser has not: nesting depth, 4300 digits
+            if b'[' * 100 in c or _DIGIT_RUN.search(c):
+                return None
+            text = case['mode'][0] == 't'
+            # the model strips what bytes.lstrip strips; str.lstrip strips more
+            if text and any(l.lstrip() != l.lstrip(ASCII_WS) for l in c.decode('utf-8').split('\n')):
+                return None
+            return 'jl %s %d %s' % (case['mode'][0], case['ign'], hx(c))
         return None
 
     # ------------------------------------------------------------------ implementation
@@ -415,7 +734,18 @@ class C19(Property):
         path = os.path.join(self.tmpdir(), 'f.txt')
         with open(path, 'wb') as w:
             w.write(content)
-        f = open(path, 'rb') if mode == 'bf' else open(path, 'r', encoding='utf-8')
+        if mode == 'bf':
+            f = open(path, 'rb')
+        elif mode == 'bu':
+            f = open(path, 'rb', buffering=0)
+        elif mode == 'br':
+            f = open(path, 'r+b')
+        elif mode == 'tn':
+            f = open(path, 'r', encoding='utf-8', newline='')
+        elif mode == 'tf':
+            f = open(path, 'r', encoding='utf-8')
+        else:
+            raise ValueError('unknown file kind %r' % (mode,))
 
         def close():
             try:
@@ -435,10 +765,12 @@ class C19(Property):
                 return ['?', repr(x)]
         return ['?', repr(x)[:50]]
 
-    def run_rl(self, content, bs, mode):
+    def run_rl(self, content, bs, mode, pre=0):
         from boltons.jsonutils import reverse_iter_lines
         f, close = self.open_file(content, mode)
         try:
+            if pre:
+                f.read(pre)     # the caller had a look at the head of the file first
             out = []
             for x in reverse_iter_lines(f, bs):
                 out.append(self.enc_line(x))
@@ -448,11 +780,13 @@ class C19(Property):
         finally:
             close()
 
-    def drain_jsonl(self, content, mode, ign, reverse):
+    def drain_jsonl(self, content, mode, ign, reverse, pre=0):
         from boltons.jsonutils import JSONLIterator
         f, close = self.open_file(content, mode)
         objs = []
         try:
+            if pre:
+                f.read(pre)
             it = JSONLIterator(f, ignore_errors=bool(ign), reverse=reverse)
             try:
                 for o in it:
@@ -476,15 +810,16 @@ class C19(Property):
                     text = ''.join(chr(c) for c in case['t'])
                     return {'lines': [cps(l) if isinstance(l, str) else ['?'] for l in iter_splitlines(text)]}
                 if k == 'rl':
-                    c = unhx(case['c'])
-                    obs = self.run_rl(c, case['bs'], case['mode'])
+                    c = content(case)
+                    obs = self.run_rl(c, case['bs'], case['mode'], case.get('pre', 0))
                     whole = self.run_rl(c, len(c) + 1, case['mode'])
                     obs['whole'] = whole.get('lines')
                     return obs
                 if k == 'jl':
-                    c = unhx(case['c'])
+                    c = content(case)
                     fo, fe = self.drain_jsonl(c, case['mode'], case['ign'], False)
-                    ro, re_ = self.drain_jsonl(c, case['mode'], case['ign'], True)
+                    # reverse mode starts from the end wherever the file position was
+                    ro, re_ = self.drain_jsonl(c, case['mode'], case['ign'], True, case.get('pre', 0))
                     return {'fwd': fo, 'fexc': fe, 'rev': ro, 'rexc': re_}
         except CaseTimeout:
             self._timeouts += 1
@@ -565,7 +900,7 @@ class C19(Property):
         return [p[:-1] if (i < len(pieces) - 1 and p.endswith(b'\r')) else p for i, p in enumerate(pieces)]
 
     def oracle_rl(self, case, obs):
-        c = unhx(case['c'])
+        c = content(case)
         text = case['mode'][0] == 't'
         got = obs['lines']
         kind = 's' if text else 'b'
@@ -574,34 +909,51 @@ class C19(Property):
                 return Failure('rl_type', 'reverse_iter_lines yielded %r in %s mode' % (l, 'text' if text else 'binary'))
         got_b = [unhx(l[1]) for l in got]
         if obs.get('whole') != got:
-            return Failure('rl_blocksize', 'reverse_iter_lines(%r, blocksize=%d) = %r differs from the one-block result %r'
-                           % (c, case['bs'], got_b, obs.get('whole')))
+            return Failure('rl_blocksize', 'reverse_iter_lines(%s, blocksize=%d, %s) = %s differs from the one-block result %s'
+                           % (self.brief(c), case['bs'], case['mode'], self.brief_lines(got_b),
+                              self.brief_lines([unhx(l[1]) for l in obs.get('whole') or []])))
         if has_lone_cr(c):
             self.stats['rl_lone_cr'] = self.stats.get('rl_lone_cr', 0) + 1
             return None
         want = self.expected_lines(c)[::-1]
         self._nt = len(want) >= 2 and case['bs'] < len(c)
         if got_b != want:
-            return Failure('rl_lines', 'reverse_iter_lines(%r, blocksize=%d, %s) = %r, expected %r'
-                           % (c, case['bs'], case['mode'], got_b, want))
+            return Failure('rl_lines', 'reverse_iter_lines(%s, blocksize=%d, %s) = %s, expected %s'
+                           % (self.brief(c), case['bs'], case['mode'], self.brief_lines(got_b), self.brief_lines(want)))
         return None
 
     def oracle_jl(self, case, obs):
-        c = unhx(case['c'])
-        if has_lone_cr(c) or b'\x0b' in c or b'\x0c' in c:
+        c = content(case)
+        text = case['mode'][0] == 't'
+        if has_lone_cr(c) or exotic_lead(c, text):
             self.stats['jl_outside_statement'] = self.stats.get('jl_outside_statement', 0) + 1
             return None
+        def load(p):
+            try:
+                # a text-mode reader hands json.loads the decoded line
+                o = json.loads(p.decode('utf-8') if text else p)
+                return ('ok', o) if o == o else ('bad',)     # NaN cannot be compared
+            except Exception:
+                return ('bad',)
         recs = []        # per non-blank line: ('ok', obj) | ('bad',)
+        recs_brk = []    # the same when json.loads is handed the line WITH its line break (forward mode does)
         skipped = 0
+        longest = 0
+        pos = 0
         for p in self.expected_lines(c):
-            if not p.strip():
+            brk = c[pos + len(p):pos + len(p) + 2]
+            brk = brk if brk == b'\r\n' else brk[:1]
+            pos += len(p) + len(brk)
+            longest = max(longest, len(p))
+            if not p.strip(JSON_WS):
                 skipped += 1
                 continue
-            try:
-                recs.append(('ok', json.loads(p)))
-            except Exception:
-                recs.append(('bad',))
+            recs.append(load(p))
+            recs_brk.append(load(p + brk))
+            if recs[-1][0] == 'bad':
                 skipped += 1
+        if longest > JSONL_BLOCK:
+            self.stats['jl_line_longer_than_block'] = self.stats.get('jl_line_longer_than_block', 0) + 1
         nbad = sum(1 for r in recs if r[0] == 'bad')
         if case['ign'] or not nbad:
             want_f = [r[1] for r in recs if r[0] == 'ok']
@@ -618,23 +970,73 @@ class C19(Property):
 
         def same(a, b):
             return len(a) == len(b) and all(type(x) is type(y) and x == y for x, y in zip(a, b))
+        if recs_brk != recs and not text:
+            # json.loads guesses UTF-16/32 from NUL bytes and then the trailing line break matters
+            self.stats['jl_break_dependent'] = self.stats.get('jl_break_dependent', 0) + 1
+            bad_b = any(r[0] == 'bad' for r in recs_brk)
+            if case['ign'] or not bad_b:
+                alt_f, alt_fe = [r[1] for r in recs_brk if r[0] == 'ok'], None
+            else:
+                alt_f, alt_fe = [r[1] for r in itertools.takewhile(lambda r: r[0] == 'ok', recs_brk)], True
+            if (same(obs['fwd'], alt_f) and bool(obs['fexc']) == bool(alt_fe)
+                    and same(obs['rev'], want_r) and bool(obs['rexc']) == bool(re_)
+                    and not (same(alt_f, want_f) and bool(alt_fe) == bool(fe))):
+                return Failure('jl_break_dependent', 'JSONLIterator (%s, ignore_errors=%s) on %s: forward %s exc=%s but '
+                               'reverse %s exc=%s: forward mode hands json.loads the line with its line break, reverse mode '
+                               'without, and json.loads (UTF-16/32 detection on NUL bytes) decodes the two differently'
+                               % (case['mode'], case['ign'], self.brief(c), self.brief_objs(obs['fwd']), obs['fexc'], self.brief_objs(obs['rev']), obs['rexc']))
         if not same(obs['fwd'], want_f) or bool(obs['fexc']) != bool(fe):
-            return Failure('jl_forward', 'JSONLIterator forward (%s, ignore_errors=%s) on %s: %r exc=%s, expected %r exc=%s'
-                           % (case['mode'], case['ign'], self.brief(c), obs['fwd'][:8], obs['fexc'], want_f[:8], bool(fe)))
+            return Failure('jl_forward', 'JSONLIterator forward (%s, ignore_errors=%s) on %s: %s exc=%s, expected %s exc=%s'
+                           % (case['mode'], case['ign'], self.brief(c), self.brief_objs(obs['fwd']), obs['fexc'], self.brief_objs(want_f), bool(fe)))
         if not same(obs['rev'], want_r) or bool(obs['rexc']) != bool(re_):
-            return Failure('jl_reverse', 'JSONLIterator reverse (%s, ignore_errors=%s) on %s: %r exc=%s, expected %r exc=%s'
-                           % (case['mode'], case['ign'], self.brief(c), obs['rev'][:8], obs['rexc'], want_r[:8], bool(re_)))
+            return Failure('jl_reverse', 'JSONLIterator reverse (%s, ignore_errors=%s) on %s: %s exc=%s, expected %s exc=%s'
+                           % (case['mode'], case['ign'], self.brief(c), self.brief_objs(obs['rev']), obs['rexc'], self.brief_objs(want_r), bool(re_)))
         return None
+
+    def finding_jl_break_dependent(self, case, failure):
+        """ONLY: binary mode, a line with NUL bytes on which json.loads' verdict depends on the trailing line
+        break, forward = the with-break reading and reverse = the without-break reading"""
+        return (failure.tag == 'jl_break_dependent' and case.get('k') == 'jl' and case['mode'][0] == 'b'
+                and b'\x00' in content(case))
 
     @staticmethod
     def brief(c):
-        return repr(c) if len(c) <= 80 else '%r...(%d bytes)' % (c[:60], len(c))
+        if len(c) <= 80:
+            return repr(c)
+        # run-length view of a long content
+        out, i, n = [], 0, len(c)
+        while i < n and len(out) < 12:
+            j = i
+            while j < n and c[j] == c[i]:
+                j += 1
+            if j - i >= 8:
+                out.append('%r*%d' % (c[i:i + 1], j - i))
+            else:
+                j = i
+                while j < n and j - i < 40 and not (j + 8 <= n and c[j:j + 8] == c[j:j + 1] * 8):
+                    j += 1
+                out.append(repr(c[i:j]))
+            i = j
+        return ' + '.join(out) + (' ...' if i < n else '') + ' (%d bytes)' % n
+
+    @staticmethod
+    def brief_objs(objs):
+        def one(o):
+            r = repr(o)
+            return r if len(r) <= 60 else r[:40] + '...(%d chars)' % len(r)
+        return '[' + ', '.join(one(o) for o in objs[:8]) + (', ... (%d objects)' % len(objs) if len(objs) > 8 else '') + ']'
+
+    @staticmethod
+    def brief_lines(ls):
+        if sum(len(l) for l in ls) <= 200 and len(ls) <= 12:
+            return repr(ls)
+        return '[' + ', '.join(C19.brief(l) for l in ls[:6]) + (', ...' if len(ls) > 6 else '') + '] (%d lines)' % len(ls)
 
     def nontrivial(self, case, obs):
         return self._nt
 
     def describe(self, case):
-        if case['k'] != 'sl' and len(case['c']) > 200:
+        if case['k'] != 'sl' and 'c' in case and len(case['c']) > 200:
             return dict(case, c=case['c'][:160] + '...(%d bytes)' % (len(case['c']) // 2))
         return case
 
@@ -649,19 +1051,38 @@ class C19(Property):
                 if c not in BREAK_CPS and c != 97 and c != 32:
                     yield dict(case, t=t[:i] + [97] + t[i + 1:])
             return
-        c = unhx(case['c'])
         text = case['mode'][0] == 't'
-        if case['mode'] in ('bf', 'tf'):
+        if len(case['mode']) > 1:
             yield dict(case, mode=case['mode'][0])
+        if case.get('pre'):
+            yield {kk: v for kk, v in case.items() if kk != 'pre'}
+        if 'rle' in case:
+            # run-length form: drop a segment, shorten a run (towards the smallest length that still fails)
+            segs = case['rle']
+            for i in range(len(segs)):
+                d = segs[:i] + segs[i + 1:]
+                if d and not (text and not self.decodable(content({'rle': d}))):
+                    yield dict(case, rle=d)
+            for i, (h, n) in enumerate(segs):
+                for m in (1, n // 2, n * 3 // 4, n * 7 // 8, n - 64, n - 8, n - 1):
+                    if 1 <= m < n:
+                        d = segs[:i] + [[h, m]] + segs[i + 1:]
+                        if not (text and not self.decodable(content({'rle': d}))):
+                            yield dict(case, rle=d)
+            return
+        c = unhx(case['c'])
         n = len(c)
-        cands = []
-        step = n // 2
-        while step >= 1:
-            for i in range(0, n, step):
-                cands.append(c[:i] + c[i + step:])
-            step //= 2
+
+        def cands():
+            step = n // 2
+            made = 0
+            while step >= 1 and made < 4000:
+                for i in range(0, n, step):
+                    made += 1
+                    yield c[:i] + c[i + step:]
+                step //= 2
         seen = set()
-        for d in cands:
+        for d in cands():
             if d in seen or (text and not self.decodable(d)):
                 continue
             seen.add(d)
